@@ -139,8 +139,21 @@ def _run_shard(args):
         _HANGS += 1
         ctx.violation('hang', ctx.current, 'no progress for %.0f s' % limit)
         ctx.extra['shards_aborted_by_hang'] += 1
-    except BaseException:
-        err = traceback.format_exc()
+    except BaseException as ex:
+        # an exception that escapes from library code through the check's own code (an attribute the check reads is missing,
+        # an internal helper raises): the library misbehaved in a way the oracle did not anticipate.  That is a violation of the
+        # property under check (reported with the case in progress), not a harness error - unless the innermost frame is ours.
+        tb = ex.__traceback__
+        while tb is not None and tb.tb_next is not None:
+            tb = tb.tb_next
+        fn = tb.tb_frame.f_code.co_filename if tb is not None else ''
+        lib = os.path.join(os.path.realpath(REPO), 'emmet') + os.sep
+        if os.path.realpath(fn).startswith(lib) and not isinstance(ex, (KeyboardInterrupt, SystemExit, MemoryError)):
+            ctx.violation('library-exception:%s@%s:%s' % (type(ex).__name__, os.path.realpath(fn)[len(lib):], tb.tb_frame.f_code.co_name),
+                          ctx.current, traceback.format_exc()[-600:])
+            ctx.extra['shards_aborted_by_library_exception'] += 1
+        else:
+            err = traceback.format_exc()
     finally:
         _CTX = None
     return shard, ctx.export(), err
@@ -372,7 +385,7 @@ def run_check(pid, tier):
         path = write_replay(pid, cls, case, detail, count, tier, mod)
         try:
             # a case that hung is not run a second time (it would only hang again): the watchdog's verdict stands
-            again = None if cls == 'hang' else replay_in_fresh_process(path)
+            again = None if (cls == 'hang' or cls.startswith('library-exception:')) else replay_in_fresh_process(path)
             # the minimal witness may be one that fails only after other cases ran in the same process (history dependence);
             # try the other small witnesses of the class before giving up
             for _size, c2, d2 in alts:
@@ -428,7 +441,7 @@ def run_check(pid, tier):
         states=tot['states'], transitions=tot['transitions'], traces_validated_against_impl=tot['validated'],
         evaluations=tot['evals'], distinct_nontrivial=tot['nontrivial'],
         rule=info['rule'] + ' Non-trivial: ' + info.get('nontrivial', 'every case'),
-        samples=samples, exhaustive=bool(info.get('exhaustive', True)) and not extra.get('stopped_after_first_violation') and not extra.get('shards_aborted_by_hang')
+        samples=samples, exhaustive=bool(info.get('exhaustive', True)) and not extra.get('stopped_after_first_violation') and not extra.get('shards_aborted_by_hang') and not extra.get('shards_aborted_by_library_exception')
         and not extra.get('shards_skipped_after_repeated_hangs'),
         bounds=info.get('bounds'), shards=len(shards), workers=procs,
         skipped_unspecified=dict(skipped), distinct_outcomes=len(outcomes),
